@@ -10,10 +10,13 @@ EXTENDS Integers, Sequences, TLC, Json, IOUtils
 
 Obs == ndJsonDeserialize(IOEnv.VERIF_OBS)
 
+(* reopened: a Close that failed left the writer accepting further calls (deferred writer; C20's "after Close every call
+   reports the store as closed" holds for a Close that returned an error, too) *)
 FaultSafe(o) ==
   /\ o.errret
   /\ ~o.visible
   /\ o.finok => (o.well /\ o.exact)
+  /\ ~o.reopened
 
 VARIABLE i
 Init == i = 1
